@@ -563,3 +563,18 @@ Proof.
     rewrite H. unfold get_router_info. apply Hp.
   - rewrite (renumber_unknown _ old new Hold). reflexivity.
 Qed.
+
+(* what the node observes updates its knowledge whatever happens to the relayed copies *)
+Lemma on_iam_learns : forall up s sn a ds, fst (on_iam up s sn a ds) = update_router_info s sn a ds 0.
+Proof. reflexivity. Qed.
+
+Lemma on_iam_after_history : forall h up sn a ds,
+  exists s', fst (on_iam up (run empty h) sn a ds) = Ok s' /\ Inv s' /\
+    (forall sn0 d0, get_router_info s' sn0 d0 =
+       if (sn0 =? sn) && zmem d0 ds then Some a else get_router_info (run empty h) sn0 d0).
+Proof.
+  intros h up sn a ds. destruct (history_inv h) as [Hcoh Hwf].
+  destruct (update_ok (run empty h) sn a ds 0 Hcoh) as [s' [H [Hc Hp]]].
+  exists s'. cbn [on_iam fst]. split; [exact H|]. split; [|exact Hp].
+  split; [exact Hc|]. apply (update_wf _ _ _ _ _ _ Hwf H).
+Qed.
